@@ -1,0 +1,31 @@
+//go:build verif
+
+package checker
+
+// Machine-checked contract for the scope of a modifier for-in loop's variables
+// (see /verif/DESIGN.md, C12).  This file contains no declarations: it only carries
+// specification comments that the elkvc verification-condition generator reads.
+
+/*@
+// `expr for pattern in iterable`: the variables the pattern declares belong to the loop.  They are
+// declared in a local environment opened for the loop (one more environment on the stack when
+// the pattern is checked), so that they neither collide with nor survive into the code around
+// the loop — whether a later, unrelated local of the same name is accepted must not depend on
+// the loop being there.
+// helpers of the loop header: they report diagnostics and compute types; the stack of local
+// environments is as they found it (assumed, like the hypothesis on checkExpression)
+func (*Checker).checkIsIterable
+  trusted
+  ensures envs: len(c.localEnvs) == old(len(c.localEnvs))
+
+func (*Checker).checkThrowType
+  trusted
+  ensures envs: len(c.localEnvs) == old(len(c.localEnvs))
+
+func (*Checker).checkModifierForInExpressionNode
+  props C12
+  nosafety
+  partial
+  requires c != nil
+  assert before checkPattern#1: len(c.localEnvs) == old(len(c.localEnvs)) + 1
+@*/
